@@ -252,6 +252,11 @@ func runC08(c *Ctx) error {
 			}
 		}
 		msgs, problem := groupMessages(dataFrames)
+		if problem == "unfinished fragmented message at end of stream" && sawClose {
+			// a content-rejected call failed the connection while a streamed send was in progress: that send stops at
+			// its next frame and returns the closed error (checked below: a call that reports success must be whole)
+			problem = ""
+		}
 		if problem != "" {
 			c.oracleFail("frames of different messages are interleaved: "+problem+" ["+tag+"]", "frames-interleaved", replay)
 			continue
